@@ -731,7 +731,7 @@ fn eval_perturb(eng: &Engine, base: &Path, db: Db, es: &[Entry], b: u64, target:
             rep.outcome("uncovered-change→same-root");
         }
     }
-    if db.p == Pattern::MixA && db.first == 1 && db.n == 2 && b == 2 && (e.rel == "immutable/00002.primary" || e.rel == "immutable/00003.bak") {
+    if db.p == Pattern::MixA && db.first == 1 && db.n == 2 && b == 2 && (e.rel == "immutable/00002.chunk" || e.rel == "immutable/00000.bak") {
         rep.sample(json!({"part": "B/perturbation", "db": db.to_json(), "beacon": b, "target": e.rel, "covered": covered,
             "perturbations": ops.iter().take(4).map(|o| o.to_json()).collect::<Vec<_>>(), "perturbations_total": ops.len(), "reference": r0.show()}));
     }
@@ -1112,7 +1112,7 @@ pub fn run(ctx: &Ctx) -> ! {
     let n2 = Db { p: Pattern::MixA, first: 1, n: 2 };
     let seen_n2 = listings.iter().filter(|(d, _)| *d == n2).count() as u64;
     rep.extra("distinct_readdir_orders_of_immutable_dir_observed", json!(listings.len()));
-    rep.extra("distinct_readdir_orders_observed_for_2_trios_mixA_first1", json!(seen_n2));
+    rep.extra("distinct_readdir_orders_observed_for_db_mixA_first1_2trios", json!(seen_n2));
     if seen_n2 < 720 {
         rep.machinery_error(format!(
             "creation order does not control readdir order on the scratch file system: 720 creation orders of 6 files gave only {seen_n2} distinct listings"
@@ -1206,7 +1206,7 @@ pub fn run(ctx: &Ctx) -> ! {
         for s in &seqs[it.from..it.to] {
             let steps: Vec<Step> = s.iter().map(|&k| al[k]).collect();
             eval_history(&eng, &cache_file, dir, *db, es, it.prov, it.phase, &steps, &bl, &mut r);
-            if i == 0 && r.samples.is_empty() && steps.iter().filter(|s| matches!(s, Step::Merkle(_))).count() == depth {
+            if *db == (Db { p: Pattern::MixA, first: 1, n: 2 }) && it.prov == Prov::Json && it.phase == 0 && it.from == 0 && r.samples.is_empty() && hash64(&steps) % 97 == 5 {
                 r.sample(json!({"part": "C/cache-history", "db": db.to_json(), "cache": it.prov.name(),
                     "steps": steps.iter().map(|s| s.to_json()).collect::<Vec<_>>()}));
             }
